@@ -14,7 +14,7 @@ From DD Require Import Base.PyStr Base.Value Path.PathModel Diff.Tree Diff.DiffM
   Delta.DeltaReverseKinds Delta.DeltaReverseSym Delta.DeltaReverseZip
   Delta.DeltaReverseSymD Delta.DeltaReverseDefault Delta.DeltaVerifyPerm
   Diff.DiffPaths Delta.DeltaReverseClash Delta.DeltaReverseClashInv Delta.DeltaVerifyHyp
-  Delta.DeltaReverseFrom Delta.DeltaVerifyMore Delta.DeltaVerifyEx2 Delta.DeltaReverseFromEx.
+  Delta.DeltaReverseFrom Delta.DeltaReverseOracle Delta.DeltaVerifyMore Delta.DeltaVerifyEx2 Delta.DeltaReverseFromEx.
 From DD Require Delta.DeltaExamples.
 
 (* ================================================================== *)
@@ -168,6 +168,33 @@ Proof.
            (C08_indep_guard_of_diff hatom udiff ops skip excl c conv always ops' t1 t2 M W1 W2 N2) e v He K D).
 Qed.
 Print Assumptions C08_detects_corruption_of_diff_all.
+
+(* ... and for EVERY opcode oracle that is a valid alignment of all-atom lists (round 3): the tiling
+   property implies [ops_disjoint] where the diff consults the oracle *)
+Theorem C08_indep_guard_of_diff_valid :
+  forall hatom udiff ops skip excl c conv always ops' t1 t2,
+    (forall p xs ys, forallb is_atom xs = true -> forallb is_atom ys = true -> valid_ops xs ys (ops p xs ys)) ->
+    wf t1 = true -> wf t2 = true -> keys_nonneg t2 = true ->
+    let r := run_diff hatom udiff ops skip excl c t1 t2 in
+    indep_verified (to_delta conv true always ops' t1 t2 (fst r) (snd r)) = true.
+Proof. exact indep_guard_valid. Qed.
+Print Assumptions C08_indep_guard_of_diff_valid.
+
+Theorem C08_detects_corruption_of_diff_all_valid :
+  forall hatom udiff ops skip excl c conv ro ao always ops' t1 t2,
+    (forall p xs ys, forallb is_atom xs = true -> forallb is_atom ys = true -> valid_ops xs ys (ops p xs ys)) ->
+    thr_num c <= thr_den c -> wf t1 = true -> wf t2 = true -> keys_nonneg t2 = true ->
+    let r := run_diff hatom udiff ops skip excl c t1 t2 in
+    let d := to_delta conv true always ops' t1 t2 (fst r) (snd r) in
+    forall e v, In e (fst r) -> ekind e = KValue \/ ekind e = KType ->
+      differs_at t1 v (ep1 e) ->
+      0 < snd (apply conv ro ao d v).
+Proof.
+  intros hatom udiff ops skip excl c conv ro ao always ops' t1 t2 M Hthr W1 W2 N2 r d e v He K D.
+  apply (C08_detects_corruption_of_diff hatom udiff ops skip excl c conv ro ao always ops' t1 t2 Hthr W1 W2
+           (C08_indep_guard_of_diff_valid hatom udiff ops skip excl c conv always ops' t1 t2 M W1 W2 N2) e v He K D).
+Qed.
+Print Assumptions C08_detects_corruption_of_diff_all_valid.
 
 (* the hypotheses are satisfiable (a nested dict / list pair in positional mode) *)
 Theorem C08_detects_corruption_of_diff_all_instance :
@@ -729,7 +756,10 @@ Print Assumptions C08_sub_inverts_default_clash_instance.
    to that order.  Guards: C01's guards for (t2,t1); korder; the order oracles sort the
    lists of the reversed delta ([orders_ok_at ro ao (reverse d)]: weaker than the global
    ro_ok / ao_ok of sections 8-10); and either mutual_add_removes changes nothing
-   ([no_clash]) or the three guards of the clash case *)
+   ([no_clash]) or the two guards of the clash case.  The opcode oracle is ANY valid
+   alignment of all-atom lists: sortedness of its ranges ([ops_sorted2] of section 10) is a
+   consequence of the tiling property, and the diff never consults it on other lists
+   (Delta/DeltaReverseOracle.v) *)
 Theorem C08_sub_inverts_from_any_equal_base :
   forall hatom udiff ops c conv always,
     thr_num c <= thr_den c ->
@@ -743,11 +773,10 @@ Theorem C08_sub_inverts_from_any_equal_base :
     let d := to_delta conv true always ops t1 t2 (fst r) (snd r) in
     orders_ok_at ro ao (reverse d) ->
     (no_clash (fst (diff hatom udiff ops DeltaReverseSym.nos DeltaReverseSym.nos c t1 t2 [] [])) \/
-     ((zip c = true \/ ops_sorted2 ops) /\ keys_nonneg t1 = true /\
-      forall cc, In cc (d_val (reverse d)) -> ntp t2 (vc_path cc))) ->
+     (keys_nonneg t1 = true /\ forall cc, In cc (d_val (reverse d)) -> ntp t2 (vc_path cc))) ->
     forall v2, wf v2 = true -> veqb v2 t2 = true ->
       exists t1', sub conv ro ao d v2 = Some (t1', 0) /\ veqb t1' t1 = true.
-Proof. exact sub_inverts_from. Qed.
+Proof. exact sub_inverts_from_valid. Qed.
 Print Assumptions C08_sub_inverts_from_any_equal_base.
 
 (* the property's "==": the difference is a well-formed value Python-equal to t1 (both ways) *)
@@ -764,10 +793,9 @@ Theorem C08_sub_inverts_python_equal :
     let d := to_delta conv true always ops t1 t2 (fst r) (snd r) in
     orders_ok_at ro ao (reverse d) ->
     (no_clash (fst (diff hatom udiff ops DeltaReverseSym.nos DeltaReverseSym.nos c t1 t2 [] [])) \/
-     ((zip c = true \/ ops_sorted2 ops) /\ keys_nonneg t1 = true /\
-      forall cc, In cc (d_val (reverse d)) -> ntp t2 (vc_path cc))) ->
+     (keys_nonneg t1 = true /\ forall cc, In cc (d_val (reverse d)) -> ntp t2 (vc_path cc))) ->
     exists t1', sub conv ro ao d t2 = Some (t1', 0) /\ wf t1' = true /\ py_eqv t1' t1 = true /\ py_eqv t1 t1' = true.
-Proof. exact sub_inverts_py. Qed.
+Proof. exact sub_inverts_py_valid. Qed.
 Print Assumptions C08_sub_inverts_python_equal.
 
 (* (t1 + d) - d ~ t1 : the sum exists without error, is t2 up to order, and subtracting d
@@ -785,12 +813,11 @@ Theorem C08_add_then_sub_default :
     let d := to_delta conv true always ops t1 t2 (fst r) (snd r) in
     orders_ok_at ro ao (reverse d) ->
     (no_clash (fst (diff hatom udiff ops DeltaReverseSym.nos DeltaReverseSym.nos c t1 t2 [] [])) \/
-     ((zip c = true \/ ops_sorted2 ops) /\ keys_nonneg t1 = true /\
-      forall cc, In cc (d_val (reverse d)) -> ntp t2 (vc_path cc))) ->
+     (keys_nonneg t1 = true /\ forall cc, In cc (d_val (reverse d)) -> ntp t2 (vc_path cc))) ->
     guards c conv true always t1 t2 -> orders_ok_at ro ao d ->
     exists t2' t1', apply conv ro ao d t1 = (t2', 0) /\ veqb t2' t2 = true /\
                     sub conv ro ao d t2' = Some (t1', 0) /\ veqb t1' t1 = true.
-Proof. exact add_then_sub_default. Qed.
+Proof. exact add_then_sub_valid. Qed.
 Print Assumptions C08_add_then_sub_default.
 
 (* (t2 - d) + d ~ t2 : "adding it back returns t2 again" *)
@@ -807,12 +834,11 @@ Theorem C08_sub_then_add_default :
     let d := to_delta conv true always ops t1 t2 (fst r) (snd r) in
     orders_ok_at ro ao (reverse d) ->
     (no_clash (fst (diff hatom udiff ops DeltaReverseSym.nos DeltaReverseSym.nos c t1 t2 [] [])) \/
-     ((zip c = true \/ ops_sorted2 ops) /\ keys_nonneg t1 = true /\
-      forall cc, In cc (d_val (reverse d)) -> ntp t2 (vc_path cc))) ->
+     (keys_nonneg t1 = true /\ forall cc, In cc (d_val (reverse d)) -> ntp t2 (vc_path cc))) ->
     guards c conv true always t1 t2 -> orders_ok_at ro ao d ->
     exists t1' t2', sub conv ro ao d t2 = Some (t1', 0) /\ veqb t1' t1 = true /\
                     apply conv ro ao d t1' = (t2', 0) /\ veqb t2' t2 = true.
-Proof. exact sub_then_add_default. Qed.
+Proof. exact sub_then_add_valid. Qed.
 Print Assumptions C08_sub_then_add_default.
 
 (* every +,-,+,... sequence of ANY length, from EVERY well-formed base equal to the left
@@ -830,8 +856,7 @@ Theorem C08_back_and_forth_default :
     let d := to_delta conv true always ops t1 t2 (fst r) (snd r) in
     orders_ok_at ro ao (reverse d) ->
     (no_clash (fst (diff hatom udiff ops DeltaReverseSym.nos DeltaReverseSym.nos c t1 t2 [] [])) \/
-     ((zip c = true \/ ops_sorted2 ops) /\ keys_nonneg t1 = true /\
-      forall cc, In cc (d_val (reverse d)) -> ntp t2 (vc_path cc))) ->
+     (keys_nonneg t1 = true /\ forall cc, In cc (d_val (reverse d)) -> ntp t2 (vc_path cc))) ->
     guards c conv true always t1 t2 -> orders_ok_at ro ao d ->
     forall k,
       (forall v, wf v = true -> veqb v t1 = true ->
@@ -840,7 +865,7 @@ Theorem C08_back_and_forth_default :
       (forall v, wf v = true -> veqb v t2 = true ->
          exists v', run_seq conv ro ao d (alternating Minus k) v = Some (v', 0) /\
                     veqb v' (if Nat.even k then t2 else t1) = true).
-Proof. exact seq_from. Qed.
+Proof. exact seq_from_valid. Qed.
 Print Assumptions C08_back_and_forth_default.
 
 (* the global order hypotheses of sections 8-10 imply the per-delta ones used here *)
@@ -899,9 +924,9 @@ Theorem C08_sub_inverts_exact_partial :
     let d := to_delta conv true always ops t1 t2 (fst r) (snd r) in
     orders_ok_at ro ao (reverse d) ->
     (no_clash (fst (diff hatom udiff ops DeltaReverseSym.nos DeltaReverseSym.nos c t1 t2 [] [])) \/
-     ((zip c = true \/ ops_sorted2 ops) /\ forall cc, In cc (d_val (reverse d)) -> ntp t2 (vc_path cc))) ->
+     (forall cc, In cc (d_val (reverse d)) -> ntp t2 (vc_path cc))) ->
     sub conv ro ao d t2 = Some (t1, 0).
-Proof. exact sub_inverts_exact. Qed.
+Proof. exact sub_inverts_exact_valid. Qed.
 Print Assumptions C08_sub_inverts_exact_partial.
 
 (* ... and with C01 at (t1,t2): t1 + d = t2, t2 - d = t1, every alternating sequence of any
@@ -919,12 +944,12 @@ Theorem C08_back_and_forth_exact_partial :
     let d := to_delta conv true always ops t1 t2 (fst r) (snd r) in
     orders_ok_at ro ao (reverse d) ->
     (no_clash (fst (diff hatom udiff ops DeltaReverseSym.nos DeltaReverseSym.nos c t1 t2 [] [])) \/
-     ((zip c = true \/ ops_sorted2 ops) /\ forall cc, In cc (d_val (reverse d)) -> ntp t2 (vc_path cc))) ->
+     (forall cc, In cc (d_val (reverse d)) -> ntp t2 (vc_path cc))) ->
     guards c conv true always t1 t2 -> ordfree t2 = true -> orders_ok_at ro ao d ->
     forall k,
       run_seq conv ro ao d (alternating Plus k) t1 = Some (if Nat.even k then t1 else t2, 0) /\
       run_seq conv ro ao d (alternating Minus k) t2 = Some (if Nat.even k then t2 else t1, 0).
-Proof. exact back_and_forth_exact. Qed.
+Proof. exact back_and_forth_exact_valid. Qed.
 Print Assumptions C08_back_and_forth_exact_partial.
 
 (* the hypotheses hold together for the K17 pair, a CLASH case with recorded opcodes, under a
